@@ -44,12 +44,13 @@
        forall hc, hook_wf hc = true -> P_hook hc (Some (run_hook hc)) = true.
 
    is false on F8 and, in addition, (a) when two bindings of ONE type share a name and include
-   different snapshots (C09_hook_same_type_name_refuted: getIncludeSnapshotsFrom finds the first
+   different snapshots (C09_refuted_F30: getIncludeSnapshotsFrom finds the first
    binding of that name for both) and (b) when a validating and a mutating binding (or two
-   mutating ones) share a name (C09_hook_admission_same_name_refuted: AdmissionLinks is keyed by
+   mutating ones) share a name (C09_refuted_F31: AdmissionLinks is keyed by
    the webhook id, which is derived from the name alone, so the request of one is rendered as
-   the other) — both reproduced on the real code, reported, not yet recorded findings; the
-   correspondence does not generate such hooks.  C09_hook_contract_partial proves it outside
+   the other) — both reproduced on the real code and recorded as the known findings F30 and F31
+   (triggers T_same_type_name, T_admission_same_name; the correspondence generates such hooks
+   only in its trigger-F30 / trigger-F31 streams).  C09_hook_contract_partial proves it outside
    the three triggers
    for every hook, every set of existing objects, every sequence of events and every order of
    the contexts in the array; includeSnapshotsFrom lists need not be sorted here.  hook_wf asks
@@ -227,19 +228,19 @@ Proof. exact hook_contract_partial. Qed.
 Print Assumptions C09_hook_contract_partial.
 
 (* two schedule bindings of one name: the second one's context gets the first one's snapshots *)
-Theorem C09_hook_same_type_name_refuted :
+Theorem C09_refuted_F30 :
   exists hc, hook_wf hc = true /\ T_hook hc = false /\ T_same_type_name hc = true
              /\ P_hook hc (Some (run_hook hc)) = false.
 Proof. exists WitHook.witness_same_type_name. exact WitHook.same_type_name_refuted. Qed.
-Print Assumptions C09_hook_same_type_name_refuted.
+Print Assumptions C09_refuted_F30.
 
 (* a validating and a mutating binding of one name: the validating request is rendered as Mutating *)
-Theorem C09_hook_admission_same_name_refuted :
+Theorem C09_refuted_F31 :
   exists hc, hook_wf hc = true /\ T_hook hc = false /\ T_same_type_name hc = false
              /\ T_admission_same_name hc = true
              /\ P_hook hc (Some (run_hook hc)) = false.
 Proof. exists WitHook.witness_admission_same_name. exact WitHook.admission_same_name_refuted. Qed.
-Print Assumptions C09_hook_admission_same_name_refuted.
+Print Assumptions C09_refuted_F31.
 
 (* UpdateSnapshots treats every context of the array on its own: whatever getIncludeSnapshotsFrom
    [inc] and SnapshotsFor [sf] answer, and whatever contexts come before it, a context gets the
